@@ -1,44 +1,668 @@
-"""C04 — every mailbox behaves like its sequential specification (E3 controlled schedules)."""
+"""C04 — every mailbox behaves like its sequential specification (E3 controlled schedules).
+
+Case line:   <mailbox> [args] | prog0 ; prog1 ; … | schedule
+  mailboxes: unbounded | segmented <segSize> | fair | uprio <pf> | usprio <pf> | bprio <cap> <pf> |
+             bsprio <cap> <pf> | ring <cap> | bounded <cap>   (bounded: one sequential program)
+  ops: e<k> Enqueue(message k)   e<k>@<s> … from sender s   d Dequeue   emp IsEmpty   len Len
+Output line: T <tid:label …> | R <res@invoked-returned,…;…> | F <drained ids> # <Len>
+"""
+import os, re
+
 ID = "C04"
-WIP = True  # not claimed in MANIFEST until the theorems exist
-LEAN_MODULES = ["GoaktVerif.Model.C04.Unbounded"]
-THEOREMS = []
-INPKG = ["actor/zz_verif_mbox.go"]
-INSTRUMENT = ["actor/unbounded_mailbox.go"]
+LEAN_MODULES = ["GoaktVerif.Props.C04"]
+_T = "GoaktVerif.C04."
+THEOREMS = [_T + t for t in [
+    "C04_refuted",
+    "F2_unbounded_reports_empty_behind_inflight",
+    "F3_fair_strands_sender",
+    "F4_bounded_priority_rejects_when_not_full",
+    "F5_segmented_recycled_segment",
+    "F6_uprio_reports_empty",
+    "F7_segmented_skips_late_slots",
+    "F8_segmented_retired_segment_relinked",
+    "C04_spec_fifo",
+    "rq_run_conserve",
+    "rq_deq_none",
+]]
+INPKG = ["actor/zz_verif_mbox.go", "actor/zz_verif_c04.go"]
+INSTRUMENT = [
+    "actor/unbounded_mailbox.go",
+    "actor/unbounded_segmented_mailbox.go",
+    "actor/unbounded_fair_mailbox.go",
+    "actor/unbounded_priority_mailbox.go",
+    "actor/unbounded_stable_priority_mailbox.go",
+    "actor/bounded_priority_mailbox.go",
+    "actor/bounded_stable_priority_mailbox.go",
+    "actor/non_blocking_bounded_mailbox.go",
+    "actor/priority_intake.go",
+]
+_A = "actor/"
 SITES = {
-    "actor/unbounded_mailbox.go:UnboundedMailbox.Enqueue": ["Store:next", "Swap:tail", "Store:next"],
-    "actor/unbounded_mailbox.go:UnboundedMailbox.Dequeue": ["Load:head", "Load:next", "Store:head", "Store:next"],
-    "actor/unbounded_mailbox.go:UnboundedMailbox.IsEmpty": ["Load:head", "Load:next"],
+    _A + "unbounded_mailbox.go:UnboundedMailbox.Enqueue": ["Store:next", "Swap:tail", "Store:next"],
+    _A + "unbounded_mailbox.go:UnboundedMailbox.Dequeue": ["Load:head", "Load:next", "Store:head", "Store:next"],
+    _A + "unbounded_mailbox.go:UnboundedMailbox.IsEmpty": ["Load:head", "Load:next"],
+    _A + "unbounded_mailbox.go:UnboundedMailbox.Len": ["Load:head", "Load:next", "Load:next"],
+    _A + "unbounded_segmented_mailbox.go:newSegment": ["Store:writeIdx", "Store:deqIdx", "Store:next", "Store:data"],
+    _A + "unbounded_segmented_mailbox.go:UnboundedSegmentedMailbox.Enqueue":
+        ["Load:tail", "Add:writeIdx", "Store:data", "Add:length", "Load:next", "CAS:tail", "CAS:next", "CAS:tail"],
+    _A + "unbounded_segmented_mailbox.go:UnboundedSegmentedMailbox.Dequeue":
+        ["Load:head", "Load:writeIdx", "Load:deqIdx", "Load:data", "Store:data", "Store:deqIdx", "Add:length",
+         "Load:next", "Store:head", "Store:next"],
+    _A + "unbounded_segmented_mailbox.go:UnboundedSegmentedMailbox.IsEmpty": ["Load:head", "Load:writeIdx", "Load:deqIdx", "Load:next"],
+    _A + "unbounded_segmented_mailbox.go:UnboundedSegmentedMailbox.Len": ["Load:length"],
+    _A + "unbounded_fair_mailbox.go:activeSenders.enqueue": ["Store:value", "Store:next", "Swap:tail", "Store:next"],
+    _A + "unbounded_fair_mailbox.go:activeSenders.dequeue": ["Load:head", "Load:next", "Store:head", "Load:value", "Store:next", "Store:value"],
+    _A + "unbounded_fair_mailbox.go:UnboundedFairMailbox.Enqueue": ["Add:length", "CAS:active", "Add:pending"],
+    _A + "unbounded_fair_mailbox.go:UnboundedFairMailbox.Dequeue": ["Store:active", "Add:length", "Add:pending"],
+    _A + "unbounded_fair_mailbox.go:UnboundedFairMailbox.finalizeSender": ["Store:pending", "Store:active", "Load:pending", "CAS:active"],
+    _A + "unbounded_fair_mailbox.go:UnboundedFairMailbox.IsEmpty": ["Load:length"],
+    _A + "unbounded_fair_mailbox.go:UnboundedFairMailbox.Len": ["Load:length"],
+    _A + "unbounded_priority_mailbox.go:UnboundedPriorityMailBox.Enqueue": ["Lock:lock", "Add:length"],
+    _A + "unbounded_priority_mailbox.go:UnboundedPriorityMailBox.Dequeue": ["Lock:lock", "Add:length"],
+    _A + "unbounded_priority_mailbox.go:UnboundedPriorityMailBox.Len": ["Load:length"],
+    _A + "unbounded_stable_priority_mailbox.go:UnboundedStablePriorityMailbox.Enqueue": ["Add:length"],
+    _A + "unbounded_stable_priority_mailbox.go:UnboundedStablePriorityMailbox.Dequeue": ["Load:length", "Add:length"],
+    _A + "unbounded_stable_priority_mailbox.go:UnboundedStablePriorityMailbox.Len": ["Load:length"],
+    _A + "bounded_priority_mailbox.go:BoundedPriorityMailbox.Enqueue": ["Add:length", "Add:length"],
+    _A + "bounded_priority_mailbox.go:BoundedPriorityMailbox.Dequeue": ["Load:length", "Add:length"],
+    _A + "bounded_priority_mailbox.go:BoundedPriorityMailbox.Len": ["Load:length"],
+    _A + "bounded_stable_priority_mailbox.go:BoundedStablePriorityMailbox.Enqueue": ["Add:length", "Add:length"],
+    _A + "bounded_stable_priority_mailbox.go:BoundedStablePriorityMailbox.Dequeue": ["Load:length", "Add:length"],
+    _A + "bounded_stable_priority_mailbox.go:BoundedStablePriorityMailbox.Len": ["Load:length"],
+    _A + "non_blocking_bounded_mailbox.go:NonBlockingBoundedMailbox.Enqueue":
+        ["Load:enqueuePos", "Load:seq", "Store:seq", "CAS:enqueuePos", "Load:enqueuePos"],
+    _A + "non_blocking_bounded_mailbox.go:NonBlockingBoundedMailbox.Dequeue":
+        ["Load:dequeuePos", "Load:seq", "Store:seq", "CAS:dequeuePos", "Load:dequeuePos"],
+    _A + "non_blocking_bounded_mailbox.go:NonBlockingBoundedMailbox.Len": ["Load:enqueuePos", "Load:dequeuePos"],
+    _A + "priority_intake.go:priorityIntake.push": ["Load:head", "Store:next", "CAS:head"],
+    _A + "priority_intake.go:priorityIntake.drain": ["Swap:head", "Load:next", "Store:next"],
+    _A + "priority_intake.go:chainNext": ["Load:next"],
+    _A + "priority_intake.go:chainUnlink": ["Store:next"],
 }
-JUDGE = False
+JUDGE = True
+TIMEOUT = 900
+MANIFEST = {
+    "level_text": "All nine mailbox algorithms are modelled in Lean at atomic-operation granularity (one transition per sync/atomic site of the Go code, labels as emitted by yieldinject) and tied to /repo by controlled-schedule replay: same step labels, same results with real-time stamps, same final drain. Kernel-checked: the full property C04_full (history oracle over all mailboxes, programs and schedules) is REFUTED (C04_refuted) with seven witness theorems F2..F8, each replayed on the real code (corpus/C04); the reservation-queue specification is FIFO in reservation order and exactly-once for all event sequences (C04_spec_fifo, rq_run_conserve).",
+    "level_note": "Partial: the simulation theorems from the mailbox models to the specification are work in progress (see design/C04.md for what is proved and what is only modelled and tied). BoundedMailbox (third-party Workiva ring buffer) is a black-box parameter, tied sequentially only. sync.Pool is pinned to one P without GC in the harness and modelled as private slot + LIFO. Counter wrap-around at 2^64 is not modelled.",
+    "technique": "Lean 4 small-step models + controlled-schedule differential (cooperative scheduler injected at every atomic operation) + history oracle with real-time intervals",
+}
+TRUSTED = [
+    "tools/yieldinject + harness/vsched: the cooperative scheduler changes timing, not semantics; one logical thread runs at a time, so atomics are sequentially consistent as in the Go memory model",
+    "sync.Pool under GOMAXPROCS(1) with GC off during a case behaves as private slot + LIFO (harness pins it; model mirrors it)",
+    "Workiva RingBuffer (BoundedMailbox) is a parameter: FIFO of capacity roundUp(cap), Put blocks when full; sampled sequentially only",
+    "uint64 positions / sequence numbers do not wrap (2^64 operations out of reach)",
+]
+RULE = ("per mailbox: 1-4 producers x <=3 ops + one consumer, schedules random / few-context-switch blocks / PCT-style; "
+        "capacities {1,2,3,4,5,8}, priority functions lt/gt/d2(ties)/m3(ties); ring wrap-around cases; segmented cases crossing "
+        "1-3 segment boundaries (real segmentSize) with recycling; non-trivial = the run produced a trace; distinct by (case, output)")
+EXPLANATION = ("evaluations = controlled schedules executed on the real mailbox code and replayed on the Lean model "
+               "(labels, results, stamps, drain compared); the oracle (python + Lean judge) checks exactly-once, order, "
+               "empty-soundness and capacity on the implementation's history")
+
+REPO = os.environ.get("VERIF_REPO", "/repo")
+PFS = ["lt", "gt", "d2", "m3"]
+CAPS = [1, 2, 3, 4, 5, 8]
+FIFO_TYPES = {"unbounded", "segmented", "ring", "bounded"}
+PRIO_TYPES = {"uprio", "usprio", "bprio", "bsprio"}
+STABLE_TYPES = {"usprio", "bsprio"}
+VYUKOV_TYPES = {"unbounded", "fair", "ring", "segmented"}   # reserve/publish windows (finding C04-F2)
+
+
+def seg_size():
+    """the Go constant segmentSize, read from the CURRENT source (the harness refuses another value)"""
+    try:
+        src = open(os.path.join(REPO, "actor", "unbounded_segmented_mailbox.go")).read()
+        m = re.search(r"const\s+segmentSize\s*=\s*(\d+)", src)
+        if m:
+            return int(m.group(1))
+    except OSError:
+        pass
+    return 256
+
+
+def lt_of(pf):
+    return {"lt": lambda a, b: a < b, "gt": lambda a, b: a > b,
+            "d2": lambda a, b: a // 2 < b // 2, "m3": lambda a, b: a % 3 < b % 3}[pf]
+
+
+def pow2_at_least(n, floor):
+    p = floor
+    while p < n:
+        p *= 2
+    return p
+
+
+def eff_cap(kind, args):
+    if kind == "ring":
+        return pow2_at_least(int(args[0]), 2)
+    if kind == "bounded":
+        return pow2_at_least(int(args[0]), 1)
+    if kind in ("bprio", "bsprio"):
+        return int(args[0])
+    return None
+
+
+# ---------------------------------------------------------------------------
+# generators
+# ---------------------------------------------------------------------------
+
+def _sched_random(rng, nt, n):
+    return [rng.randrange(nt) for _ in range(n)]
+
+
+def _sched_blocks(rng, nt, nblocks, maxrun):
+    """few context switches: each block lets one thread run several steps in a row"""
+    out = []
+    for _ in range(nblocks):
+        out += [rng.randrange(nt)] * rng.randint(1, maxrun)
+    return out
+
+
+def _sched_pct(rng, nt, n, d=2):
+    """PCT-style: run the highest-priority thread; at d random change points demote the running one"""
+    prio = list(range(nt))
+    rng.shuffle(prio)
+    change = sorted(rng.randrange(max(n, 1)) for _ in range(d))
+    out = []
+    for i in range(n):
+        if change and i == change[0]:
+            change.pop(0)
+            prio.append(prio.pop(0))
+        # the top thread may already be done; interleave a second one sometimes so the run advances
+        out.append(prio[0] if rng.random() < 0.85 else prio[1 % nt])
+    return out
+
+
+def _schedule(rng, nt, steps):
+    k = rng.random()
+    if k < 0.4:
+        return _sched_random(rng, nt, rng.randint(0, steps))
+    if k < 0.75:
+        return _sched_blocks(rng, nt, rng.randint(1, 8), max(2, steps // 3))
+    return _sched_pct(rng, nt, rng.randint(1, steps))
+
+
+def _cfg(rng, kind):
+    if kind == "segmented":
+        return f"segmented {seg_size()}"
+    if kind in ("uprio", "usprio"):
+        return f"{kind} {rng.choice(PFS)}"
+    if kind in ("bprio", "bsprio"):
+        return f"{kind} {rng.choice(CAPS)} {rng.choice(PFS)}"
+    if kind == "ring":
+        return f"ring {rng.choice(CAPS)}"
+    return kind
+
+
+def _small_case(rng, kind, tier):
+    np_ = rng.randint(1, 3) if tier == "quick" else rng.randint(2, 4)
+    mid = 1
+    progs = []
+    keys = [0, 1, 2]
+    for _p in range(np_):
+        ops = []
+        for _ in range(rng.randint(1, 3)):
+            if rng.random() < 0.12:
+                ops.append("len")      # Len from any goroutine; IsEmpty/Dequeue belong to the one consumer
+                continue
+            if kind == "fair":
+                ops.append(f"e{mid}@{rng.choice(keys)}" if rng.random() < 0.8 else f"e{mid}")
+            else:
+                ops.append(f"e{mid}")
+            mid += 1
+        progs.append(" ".join(ops))
+    cons = [rng.choice(["d", "d", "d", "d", "emp", "len"]) for _ in range(rng.randint(1, 6))]
+    progs.append(" ".join(cons))
+    nt = np_ + 1
+    steps = 6 * sum(len(p.split()) for p in progs)
+    sched = _schedule(rng, nt, steps)
+    return _cfg(rng, kind) + " | " + " ; ".join(progs) + " | " + " ".join(map(str, sched))
+
+
+def _bounded_case(rng):
+    cap = rng.choice(CAPS)
+    eff = pow2_at_least(cap, 1)
+    held, mid, ops = 0, 1, []
+    for _ in range(rng.randint(1, 14)):
+        r = rng.random()
+        if r < 0.5 and held < eff:        # Put on a full ring blocks: never generated
+            ops.append(f"e{mid}")
+            mid += 1
+            held += 1
+        elif r < 0.85:
+            ops.append("d")
+            held = max(0, held - 1)
+        else:
+            ops.append(rng.choice(["emp", "len"]))
+    return f"bounded {cap} | " + " ".join(ops) + " | "
+
+
+def _segment_boundary_case(rng, crossings):
+    """enough messages to cross `crossings` segment boundaries; concurrency concentrated around the boundaries"""
+    S = seg_size()
+    total = crossings * S + rng.randint(1, 4)
+    # thread 0: the bulk producer; thread 1: a second producer; thread 2: consumer
+    p0 = [f"e{i}" for i in range(1, total + 1)]
+    p1 = [f"e{100000 + i}" for i in range(1, rng.randint(2, 5))]
+    ndeq = rng.choice([0, 3, S, S + 3]) if crossings < 2 else crossings * S - rng.randint(0, 3)
+    cons = ["d"] * ndeq + [rng.choice(["emp", "len", "d"])]
+    sched = []
+    done0 = 0
+    for c in range(crossings):
+        # fill up to a few slots before the boundary without interleaving (4 steps per enqueue)
+        fill = (c + 1) * S - rng.randint(1, 3) - done0
+        sched += [0] * (4 * fill)
+        done0 += fill
+        # interleave all three threads around the boundary (newSegment has S+5 steps)
+        sched += _sched_blocks(rng, 3, rng.randint(3, 10), S // 2 + 8)
+        # let the consumer drain a full segment so it is recycled
+        if crossings >= 2:
+            sched += [2] * (7 * S + 12)
+    sched += _sched_random(rng, 3, rng.randint(0, 40))
+    return f"segmented {S} | " + " ; ".join([" ".join(p0), " ".join(p1), " ".join(cons)]) + " | " + " ".join(map(str, sched))
+
+
+def _ring_wrap_case(rng):
+    """the ring indices wrap: more enqueues than slots, consumer keeps up"""
+    cap = rng.choice([1, 2, 3, 4])
+    n = 3 * pow2_at_least(cap, 2) + rng.randint(0, 3)
+    p0 = [f"e{i}" for i in range(1, n + 1)]
+    p1 = [f"e{1000 + i}" for i in range(1, rng.randint(2, 4))]
+    cons = ["d"] * (n + rng.randint(0, 3))
+    sched = _sched_random(rng, 3, rng.randint(20, 12 * n))
+    return f"ring {cap} | " + " ; ".join([" ".join(p0), " ".join(p1), " ".join(cons)]) + " | " + " ".join(map(str, sched))
+
+
+KINDS = ["unbounded", "segmented", "fair", "uprio", "usprio", "bprio", "bsprio", "ring"]
 
 
 def gen_cases(rng, tier):
     cases = []
-    n = 200 if tier == "quick" else 3000
-    for _ in range(n):
-        np = rng.randint(1, 3)
-        mid = 1
-        progs = []
-        for _p in range(np):
-            ops = []
-            for _ in range(rng.randint(1, 3)):
-                ops.append(f"e{mid}")
-                mid += 1
-            progs.append(" ".join(ops))
-        cons = []
-        for _ in range(rng.randint(1, 5)):
-            cons.append(rng.choice(["d", "d", "d", "emp", "len"]))
-        progs.append(" ".join(cons))
-        nt = np + 1
-        sched = [str(rng.randrange(nt)) for _ in range(rng.randint(0, 30))]
-        cases.append("unbounded | " + " ; ".join(progs) + " | " + " ".join(sched))
+    per = 60 if tier == "quick" else 2200
+    for kind in KINDS:
+        for _ in range(per):
+            cases.append(_small_case(rng, kind, tier))
+    for _ in range(40 if tier == "quick" else 600):
+        cases.append(_bounded_case(rng))
+    for _ in range(10 if tier == "quick" else 150):
+        cases.append(_ring_wrap_case(rng))
+    for _ in range(2 if tier == "quick" else 25):
+        cases.append(_segment_boundary_case(rng, 1))
+    for _ in range(1 if tier == "quick" else 25):
+        cases.append(_segment_boundary_case(rng, 2))
+    if tier == "thorough":
+        for _ in range(4):
+            cases.append(_segment_boundary_case(rng, 3))
     return cases
 
 
+def search_cases(rng, tier):
+    cases = []
+    for kind in KINDS:
+        for _ in range(1500):
+            cases.append(_small_case(rng, kind, "thorough"))
+    for _ in range(300):
+        cases.append(_bounded_case(rng))
+    for _ in range(100):
+        cases.append(_ring_wrap_case(rng))
+    for _ in range(20):
+        cases.append(_segment_boundary_case(rng, rng.choice([1, 2])))
+    return cases
+
+
+# ---------------------------------------------------------------------------
+# implementation oracle (independent of the Lean model): evaluated on R / F / T of the real run
+# ---------------------------------------------------------------------------
+
+class Ev:
+    __slots__ = ("tid", "op", "kind", "id", "key", "res", "s", "e")
+
+    def __repr__(self):
+        return f"{self.tid}:{self.op}={self.res}@{self.s}-{self.e}"
+
+
+def parse(case, impl):
+    """-> (kind, args, events, drained, final_len, trace) or a string describing why it cannot be parsed"""
+    cp = case.split("|")
+    if len(cp) != 3:
+        return "bad-case"
+    cfg = cp[0].split()
+    kind, args = cfg[0], cfg[1:]
+    progs = [p.split() for p in cp[1].split(";")]
+    m = re.match(r"^T ?(.*?) ?\| R (.*?) \| F ?(.*)$", impl)
+    if not m:
+        return "unparsable output: " + impl[:80]
+    trace = m.group(1).split()
+    rs = [r.split(",") if r else [] for r in m.group(2).split(";")]
+    fin = m.group(3)
+    if "#" not in fin:
+        return "unfinished run: F=" + fin[:40]
+    ids, flen = fin.split("#")
+    try:
+        drained = [int(x) for x in ids.split()]
+        final_len = int(flen)
+    except ValueError:
+        return "bad final digest: " + fin[:60]
+    if len(rs) != len(progs):
+        return "thread count mismatch in R"
+    evs = []
+    clock = 0
+    for tid, (prog, res) in enumerate(zip(progs, rs)):
+        if len(prog) != len(res):
+            return f"thread {tid} finished {len(res)} of {len(prog)} operations"
+        for op, r in zip(prog, res):
+            ev = Ev()
+            ev.tid, ev.op = tid, op
+            if "@" in r:
+                val, st = r.rsplit("@", 1)
+                a, b = st.split("-")
+                ev.s, ev.e = int(a), int(b)
+            else:                      # sequential black-box runs carry no stamps
+                val = r
+                clock += 2
+                ev.s, ev.e = clock - 1, clock
+            ev.res = val
+            if op.startswith("e") and op != "emp":
+                ev.kind = "enq"
+                body = op[1:]
+                ev.key = 0
+                if "@" in body:
+                    body, k = body.split("@")
+                    ev.key = int(k)
+                ev.id = int(body)
+                if val not in ("ok", "full"):
+                    return f"enqueue returned {val!r}"
+            elif op == "d":
+                ev.kind = "deq"
+                ev.key = None
+                if val == "nil":
+                    ev.id = None
+                else:
+                    try:
+                        ev.id = int(val)
+                    except ValueError:
+                        return f"dequeue returned {val!r}"
+            else:
+                ev.kind = op
+                ev.id = ev.key = None
+                if op == "emp" and val not in ("true", "false"):
+                    return f"IsEmpty returned {val!r}"
+                if op == "len":
+                    try:
+                        int(val)
+                    except ValueError:
+                        return f"Len returned {val!r}"
+            evs.append(ev)
+    return kind, args, evs, drained, final_len, trace
+
+
+def check_history(kind, args, evs, drained, final_len, trace):
+    """returns a list of failure strings (empty = the run satisfies the property)"""
+    fails = []
+    enq = {e.id: e for e in evs if e.kind == "enq"}
+    accepted = {i for i, e in enq.items() if e.res == "ok"}
+    deqs = sorted((e for e in evs if e.kind == "deq"), key=lambda e: e.s)
+    INF = 10 ** 9
+    # output sequence: (id, start, end) of every successful removal; drained ones after everything
+    out = [(e.id, e.s, e.e) for e in deqs if e.id is not None] + [(i, INF + k, INF + k) for k, i in enumerate(drained)]
+    pos = {}
+    for p, (i, _, _) in enumerate(out):
+        if i not in accepted:
+            fails.append(f"phantom: {i} came out but was never accepted")
+        if i in pos:
+            fails.append(f"dup: message {i} came out twice")
+        pos.setdefault(i, p)
+    lost = sorted(accepted - set(pos))
+    if lost:
+        fails.append(f"lost: accepted messages never came out ids={lost} finallen={final_len}")
+    elif final_len != 0:
+        fails.append(f"len: Len() = {final_len} after a complete drain")
+    # FIFO in real-time order (covers per-producer order)
+    if kind in FIFO_TYPES or kind == "fair":
+        acc = sorted((enq[i] for i in accepted if i in pos), key=lambda e: e.e)
+        for ai, a in enumerate(acc):
+            for b in acc:
+                if a.e < b.s and (kind != "fair" or a.key == b.key) and pos[a.id] > pos[b.id]:
+                    fails.append(f"order: enqueue of {a.id} returned before enqueue of {b.id} was invoked, but {b.id} came out first")
+                    break
+            else:
+                continue
+            break
+    # priority order on every removal: nothing that was surely inside outranks what came out
+    if kind in PRIO_TYPES:
+        lt = lt_of(args[-1])
+        for p, (x, xs, xe) in enumerate(out):
+            if x not in enq:
+                continue
+            for y in accepted:
+                ey = enq[y]
+                if y == x or ey.e >= xs or (y in pos and pos[y] < p):
+                    continue
+                if lt(y, x):
+                    fails.append(f"prio: {x} came out while {y} (higher priority, enqueue completed earlier) was inside")
+                    break
+                if kind in STABLE_TYPES and not lt(x, y) and ey.e < enq[x].s:
+                    fails.append(f"stable: {x} came out before {y} (same priority, {y} arrived first)")
+                    break
+            else:
+                continue
+            break
+    # empty soundness: nil / IsEmpty=true while a completed enqueue has not been dequeued
+    for x in evs:
+        if (x.kind == "deq" and x.id is None) or (x.kind == "emp" and x.res == "true"):
+            surely = {i for i in accepted if enq[i].e < x.s}
+            gone = {e.id for e in deqs if e.id is not None and e.s < x.e}
+            left = sorted(surely - gone)
+            if left:
+                infl = [e for e in evs if e.kind == "enq" and e.s < x.e and e.e > x.s]
+                fails.append(f"empty-unsound: {'Dequeue=nil' if x.kind == 'deq' else 'IsEmpty=true'} at {x.s}-{x.e} "
+                             f"while completed enqueue(s) {left} not dequeued inflight={len(infl)}")
+                break
+    # capacity
+    cap = eff_cap(kind, args)
+    if cap is not None:
+        for a in (enq[i] for i in accepted):
+            held = sum(1 for i in accepted if enq[i].e <= a.e) - sum(1 for e in deqs if e.id is not None and e.s <= a.e)
+            if held > cap:
+                fails.append(f"cap: {held} messages held after enqueue of {a.id}, capacity {cap}")
+                break
+        for x in (e for e in evs if e.kind == "enq" and e.res == "full"):
+            upper = sum(1 for i in accepted if enq[i].s < x.e) - sum(1 for e in deqs if e.id is not None and e.e < x.s)
+            if upper < cap:
+                other = [e for e in evs if e.kind == "enq" and e.res == "full" and e is not x and e.s < x.e and e.e > x.s]
+                fails.append(f"spurious-full: enqueue of {x.id} rejected with at most {upper} of {cap} slots taken "
+                             f"overlapping-rejected={len(other)}")
+                break
+    elif any(e.kind == "enq" and e.res == "full" for e in evs):
+        fails.append("full: an unbounded mailbox rejected a message")
+    return fails
+
+
+_KIND = {"phantom": "exactly-once", "dup": "exactly-once", "lost": "exactly-once", "len": "len", "order": "order",
+         "prio": "prio", "stable": "prio", "empty-unsound": "empty-unsound", "cap": "cap", "spurious-full": "cap", "full": "cap"}
+
+
+def oracle(case, impl, judge):
+    """python evaluation of the property on the implementation's history (it carries the details the
+    classifier needs); the Lean judge (Spec/C04.lean `verdict`, the functions C04_full is stated with)
+    must agree with it clause by clause"""
+    if impl is None:
+        return None
+    if impl == "bad-case":
+        return "harness rejected the case (constructor arguments / segment size differ from what the case assumes)"
+    if impl.startswith("CRASH") or impl.startswith("panic") or impl == "stuck":
+        return "implementation " + impl[:120]
+    if "!stuck" in impl or " cap |" in impl or impl.startswith("T cap"):
+        return "a logical thread did not finish (stuck or spinning)"
+    if "panic:" in impl:
+        return "panic inside a mailbox operation: " + impl[impl.index("panic:"):][:100]
+    p = parse(case, impl)
+    if isinstance(p, str):
+        return p
+    fails = check_history(*p)
+    mine = ("bad " + _KIND.get(fails[0].split(":")[0], "?")) if fails else "ok"
+    if judge is not None and judge != mine:
+        return f"judge: Lean spec oracle says {judge!r}, python mirror says {mine!r}" + (" (" + fails[0] + ")" if fails else "")
+    return fails[0] if fails else None
+
+
+def _steps(impl):
+    """[(tid, label)] of the executed steps (entries for finished threads dropped)"""
+    out = []
+    for t in impl.split("|")[0].split()[1:]:
+        if ":" in t and "!" not in t:
+            a, b = t.split(":", 1)
+            out.append((int(a), b))
+    return out
+
+
+def _windows(steps, tid_pred, first, last, stop=None):
+    """index pairs (i, j): step i is `first` by a thread t accepted by tid_pred, j is t's next `last`
+    (with no other `first` of t in between)"""
+    res = []
+    for i, (t, l) in enumerate(steps):
+        if l != first or not tid_pred(t):
+            continue
+        for j in range(i + 1, len(steps)):
+            t2, l2 = steps[j]
+            if t2 != t:
+                continue
+            if l2 == last:
+                res.append((i, j, t))
+                break
+            if l2 == first:
+                break
+    return res
+
+
+def _seg_reserve_index(steps, progs):
+    """segmented mailbox, pure-enqueue producers: message id -> index of the `Add:writeIdx` step that
+    reserved the slot it was stored into (None when a producer program also holds other operations)"""
+    res = {}
+    for tid, prog in enumerate(progs):
+        if not prog or any(not (op.startswith("e") and op != "emp") for op in prog):
+            continue
+        k, last_add = 0, None
+        for idx, (t, l) in enumerate(steps):
+            if t != tid:
+                continue
+            if l == "Add:writeIdx":
+                last_add = idx
+            elif l == "Add:length":
+                if k < len(prog):
+                    res[int(prog[k][1:].split("@")[0])] = last_add
+                k += 1
+    return res
+
+
+def classify(case, impl, why):
+    """map an oracle failure to a known finding id — exact signatures only"""
+    if not why or not impl:
+        return None
+    kind = case.split("|")[0].split()[0]
+    progs = [p.split() for p in case.split("|")[1].split(";")]
+    p = parse(case, impl)
+    if isinstance(p, str):
+        return None
+    evs = p[2]
+    if why.startswith("empty-unsound"):
+        m = re.search(r"inflight=(\d+)", why)
+        infl = int(m.group(1)) if m else 0
+        # C04-F2: an unpublished (in-flight) enqueue hides completed ones behind it; Vyukov-style queues only;
+        # IsEmpty is affected only where it follows the links (unbounded)
+        if infl >= 1 and kind in VYUKOV_TYPES and ("Dequeue=nil" in why or kind == "unbounded"):
+            return "C04-F2"
+        # C04-F6: UnboundedPriorityMailBox counts a message only after the critical section: when the
+        # operation read `length`, some enqueue had pushed (Lock:lock done) but not yet counted (Add:length)
+        if kind == "uprio":
+            m = re.search(r"at (\d+)-(\d+)", why)
+            x = next((e for e in evs if m and e.s == int(m.group(1)) and e.e == int(m.group(2))), None)
+            if x is not None:
+                nth = sum(1 for e in evs if e.tid == x.tid and e.kind != "enq" and e.s <= x.s)  # x is the nth Load:length of its thread
+                steps = _steps(impl)
+                seen = 0
+                pushed = {}
+                for (t, l) in steps:
+                    if t == x.tid and l == "Load:length":
+                        seen += 1
+                        if seen == nth:
+                            break
+                    enq_thread = any(op.startswith("e") and op != "emp" for op in progs[t])
+                    if l == "Lock:lock" and t != x.tid and enq_thread:
+                        pushed[t] = pushed.get(t, 0) + 1
+                    if l == "Add:length" and t != x.tid and enq_thread:
+                        pushed[t] = pushed.get(t, 0) - 1
+                if any(v > 0 for v in pushed.values()):
+                    return "C04-F6"
+    if why.startswith("lost") and kind == "fair":
+        # C04-F3: stranded sender: messages still counted by Len() but never served, two threads on one sender key
+        m = re.search(r"ids=\[([^\]]*)\] finallen=(-?\d+)", why)
+        if m:
+            ids = [int(x) for x in m.group(1).split(",") if x.strip()]
+            enq = {e.id: e for e in evs if e.kind == "enq"}
+            keys = {enq[i].key for i in ids if i in enq}
+            shared = all(len({e.tid for e in evs if e.kind == "enq" and e.key == k}) >= 2 for k in keys)
+            if int(m.group(2)) == len(ids) and shared:
+                return "C04-F3"
+    if why.startswith("spurious-full") and kind in ("bprio", "bsprio"):
+        # C04-F4: the transient +1 of a concurrently failing Enqueue makes another Enqueue fail
+        m = re.search(r"overlapping-rejected=(\d+)", why)
+        if m and int(m.group(1)) >= 1:
+            return "C04-F4"
+    if why.startswith("lost") and kind == "segmented":
+        m = re.search(r"ids=\[([^\]]*)\]", why)
+        ids = [int(x) for x in m.group(1).split(",") if x.strip()] if m else []
+        steps = _steps(impl)
+        res = _seg_reserve_index(steps, progs)
+        if ids and all(res.get(i) is not None for i in ids):
+            consumer = lambda t: "d" in progs[t]
+            producer = lambda t: not consumer(t)
+            # C04-F7: the consumer read writeIdx, then (later) found next != nil and advanced: every slot
+            # reserved in between is skipped
+            stale = _windows(steps, consumer, "Load:writeIdx", "Store:head")
+            f7 = {x for x in ids if any(i < res[x] < j for (i, j, _) in stale)}
+            # C04-F5: a producer with a stale tail pointer reserved a slot of a recycled segment while
+            # another producer was resetting it in newSegment (the slot is wiped; the queue stays wedged
+            # behind it, so everything reserved later is stranded as well)
+            reset = _windows(steps, producer, "Store:writeIdx", "CAS:next")
+            wiped = [res[x] for x in ids if any(i < res[x] < j and steps[res[x]][0] != t for (i, j, t) in reset)]
+            f5 = {x for x in ids if wiped and res[x] >= min(wiped)}
+            # C04-F8: the consumer retired a segment (Store:next nil, pool.Put) while a producer was still
+            # inside newSegment for that tail; the producer then links its segment behind the retired one
+            # and moves tail there: everything reserved afterwards is unreachable from head
+            retire = [i for i, (t, l) in enumerate(steps) if consumer(t) and l == "Store:next"]
+            split = [j for (i, j, _) in reset if any(i < r < j for r in retire)]
+            f8 = {x for x in ids if split and res[x] > min(split)}
+            # every lost message must be explained by one of the three families; the run is filed under
+            # the family of the first lost message
+            if all(x in f7 or x in f5 or x in f8 for x in ids):
+                x = ids[0]
+                return "C04-F7" if x in f7 else ("C04-F5" if x in f5 else "C04-F8")
+    return None
+
+
 def is_trivial(case, impl):
-    return not impl.startswith("T ")
+    return not impl.startswith("T")
 
 
 def tag(case, impl):
-    return case.split("|")[0].strip()
+    f = case.split("|")[0].split()
+    t = f[0]
+    if t == "segmented":
+        n = case.count(" e")
+        t += "-cross" if n > seg_size() else "-small"
+    return t
+
+
+def shrink(case):
+    cfg, progs, sched = case.split("|")
+    s = sched.split()
+    for cut in (len(s) // 2, len(s) - 1):
+        if 0 <= cut < len(s):
+            yield cfg + "|" + progs + "| " + " ".join(s[:cut])
+    ps = [p.split() for p in progs.split(";")]
+    for i, p in enumerate(ps):
+        if len(p) > 1:
+            q = [list(x) for x in ps]
+            q[i] = p[:-1]
+            yield cfg + "| " + " ; ".join(" ".join(x) for x in q) + " |" + sched
